@@ -7,14 +7,19 @@ strings, Latin-1 / cp1252 / Shift-JIS / BMP / non-BMP characters, control charac
 very long and empty names; form XObjects nested up to 3 deep, image XObjects, inline images,
 rect / line / curve paths, 1-3 pages, rotated pages; LAParams variety incl. None.
 
-Observation: pdfminer.high_level.extract_text_to_fp (text and xml; StringIO and BytesIO + codec;
-strip_control on/off; page_numbers / maxpages) and extract_text.  Reference: the LTPage trees of
-extract_pages (PDFPageAggregator for laparams=None) on the same bytes and options.
+Observation: pdfminer.high_level.extract_text_to_fp (text and xml; StringIO / BytesIO / real text-mode and
+binary-mode files; codecs; strip_control on/off; page_numbers / maxpages) and extract_text.  A recorder
+wrapped around TextConverter.receive_layout / XMLConverter.receive_layout keeps the LTPage each
+converter is asked to serialise (the converter's own method runs unchanged).
 
-Oracle: text == concatenation of the tree's LTText leaves, "\\n" after each LTTextBox, "\\f"
-after each page; decoded binary output == text-sink output; the XML parses with expat and is
-walked in lock step with the tree (tags, attributes, character data), modulo exactly what
-XML 1.0 itself normalises (2.11 line ends, 3.3.3 attribute values).
+Oracle: (1) serialisation against the tree of the same run: text == concatenation of the tree's LTText
+leaves, LF after each LTTextBox, FF after each page; the XML parses with expat and is walked in lock
+step with the tree (tags, attributes, character data, <layout> == page.groups), modulo exactly what
+XML 1.0 itself normalises (2.11 line ends, 3.3.3 attribute values); binary output decoded with the
+declared codec must satisfy the same oracle, and expat is also fed the bytes where it can honour the
+declaration.  (2) option plumbing: the serialised tree equals the tree of extract_pages
+(PDFPageAggregator for laparams=None) on the same bytes and options - exactly, or, because the
+analysis breaks ties between equally distant boxes by id(), as the same multiset of items per page.
 """
 from __future__ import annotations
 
@@ -38,8 +43,9 @@ RULE = (
     "(simple + ToUnicode, plain WinAnsi, standard-14, descriptor-less, Type0 Identity-H/V + ToUnicode); ToUnicode targets and "
     "font/XObject names drawn from XML-special strings and a per-document character profile (ascii, latin1, cp1252, sjis, any incl. "
     "non-BMP), optionally control characters, tab/CR/LF, U+FFFE/FFFF, names of 1500-6000 characters, empty names, non-UTF-8 names; "
-    "each document x {laparams random, None} x {text, xml} x {StringIO, BytesIO with 2-3 codecs able to encode the output} x "
-    "strip_control, plus extract_text and page_numbers/maxpages. One evaluation = one (document, configuration) comparison; "
+    "each document x {laparams random, None} x {text, xml} x {text sink, binary sink with 2-3 codecs that round-trip the output; "
+    "85% StringIO/BytesIO, 15% real files} x strip_control, plus extract_text (given and default laparams) and "
+    "page_numbers/maxpages. One evaluation = one (document, configuration) comparison; "
     "distinct = distinct (pdf, configuration); non-trivial = the selected pages show >=1 glyph and the document carries a "
     "non-alphanumeric feature in text or names, or a figure. Not generated: font names given as PDF strings, lone surrogates, "
     "documents that make the interpreter raise (C13), HTML/hOCR/tag output."
@@ -49,7 +55,7 @@ ASSUMPTIONS = [
     "xml.parsers.expat decides XML 1.0 well-formedness; stdlib codecs decide what a codec can represent",
     "XML 1.0 2.11 / 3.3.3: CR and CRLF in character data read back as LF, tab/CR/LF in attribute values read back as spaces; the comparison is modulo exactly that",
     "with strip_control=False a document whose text or names contain characters outside the XML 1.0 Char production is not required to give well-formed output; it is compared after substituting U+E000 for those characters",
-    "the serialisation is compared with the tree of the same run (recorded at receive_layout); the separately extracted extract_pages tree is compared modulo order, box index and group shape, which the analysis decides by id() on ties",
+    "the serialisation is compared with the tree of the same run (recorded at receive_layout); the separately extracted extract_pages tree is compared modulo order, box index and group shape, which the analysis decided by id() on ties before the sequence-number fix (counters reference_trees_identical / _tie_reordered show which case occurred)",
 ]
 SHARD_TIMEOUT = {"quick": 600, "thorough": 5400}
 
@@ -61,16 +67,22 @@ EXPAT_BYTES = {"utf-8", "utf-16", "latin-1", "cp1252", "ascii", "iso8859-15"}   
 
 def minimums(tier: str) -> Dict[str, int]:
     if tier == "quick":
-        return {"evaluations": 4000, "distinct": 3000, "docs": 450, "text_runs": 1800, "xml_runs": 1500, "xml_elements_compared": 150000,
-                "xml_attrs_compared": 400000, "xml_wellformed_demanded": 1000, "binary_text_runs": 900, "binary_xml_runs": 600,
+        return {"evaluations": 4000, "distinct": 3500, "docs": 500, "text_runs": 1800, "xml_runs": 1500, "xml_elements_compared": 150000,
+                "xml_attrs_compared": 400000, "xml_chardata_compared": 100000, "xml_wellformed_demanded": 1000, "xml_marked_runs": 200,
+                "xml_bytes_parsed": 200, "binary_text_runs": 900, "binary_xml_runs": 600, "file_sink_runs": 300,
+                "reference_trees_compared": 3500, "text_box_newlines": 10000, "text_formfeeds": 1000,
                 "docs_xmlspecial_text": 200, "docs_xmlspecial_fontname": 150, "docs_xmlspecial_figname": 80, "docs_nonbmp": 40,
-                "docs_ctrl_text": 60, "docs_ctrl_name": 40, "docs_nested_figures": 40, "docs_images": 80, "docs_long_name": 8,
-                "laparams_none_runs": 300, "vertical_boxes": 5, "layout_elements": 200, "seen:xml_tags": 11, "seen:codecs": 10}
-    return {"evaluations": 120000, "distinct": 100000, "docs": 12000, "text_runs": 50000, "xml_runs": 40000, "xml_elements_compared": 4000000,
-            "xml_attrs_compared": 10000000, "xml_wellformed_demanded": 30000, "binary_text_runs": 25000, "binary_xml_runs": 18000,
+                "docs_ctrl_text": 60, "docs_ctrl_name": 40, "docs_nonchar_text": 8, "docs_nested_figures": 40, "docs_images": 80,
+                "docs_long_name": 8, "docs_ws_name": 15, "docs_page_selection": 40, "laparams_none_runs": 300, "vertical_boxes": 5,
+                "layout_elements": 200, "seen:xml_tags": 12, "seen:codecs": 20}
+    return {"evaluations": 100000, "distinct": 85000, "docs": 12800, "text_runs": 50000, "xml_runs": 40000, "xml_elements_compared": 4000000,
+            "xml_attrs_compared": 10000000, "xml_chardata_compared": 2500000, "xml_wellformed_demanded": 30000, "xml_marked_runs": 6000,
+            "xml_bytes_parsed": 6000, "binary_text_runs": 25000, "binary_xml_runs": 18000, "file_sink_runs": 9000,
+            "reference_trees_compared": 85000, "text_box_newlines": 300000, "text_formfeeds": 30000,
             "docs_xmlspecial_text": 6000, "docs_xmlspecial_fontname": 4500, "docs_xmlspecial_figname": 2400, "docs_nonbmp": 1200,
-            "docs_ctrl_text": 1800, "docs_ctrl_name": 1200, "docs_nested_figures": 1200, "docs_images": 2400, "docs_long_name": 250,
-            "laparams_none_runs": 9000, "vertical_boxes": 200, "layout_elements": 6000, "seen:xml_tags": 11, "seen:codecs": 14}
+            "docs_ctrl_text": 1800, "docs_ctrl_name": 1200, "docs_nonchar_text": 300, "docs_nested_figures": 1200, "docs_images": 2400,
+            "docs_long_name": 250, "docs_ws_name": 500, "docs_page_selection": 1200, "laparams_none_runs": 9000, "vertical_boxes": 200,
+            "layout_elements": 6000, "seen:xml_tags": 12, "seen:codecs": 30}
 
 
 def shards(tier: str, seed: int) -> List[Dict[str, Any]]:
@@ -218,13 +230,21 @@ def _install_recorder() -> None:
 
 
 def run_converter(pdf: bytes, output_type: str, la: Optional[Dict[str, Any]], sel: Dict[str, Any], codec: Optional[str],
-                  strip: bool = False) -> Tuple[Any, List[Any]]:
-    """extract_text_to_fp into a StringIO (codec None) or a BytesIO (codec given) -> (str / bytes, serialised LTPages)."""
+                  strip: bool = False, filesink: bool = False) -> Tuple[Any, List[Any]]:
+    """extract_text_to_fp into a text sink (codec None) or a binary sink (codec given) -> (str / bytes, serialised LTPages).
+
+    The sink is a StringIO / BytesIO, or (filesink) a real temporary file opened in text mode (UTF-8, no newline
+    translation) / binary mode."""
     from pdfminer.high_level import extract_text_to_fp
 
     _install_recorder()
     binary = codec is not None
-    out: Any = io.BytesIO() if binary else io.StringIO()
+    if filesink:
+        import tempfile
+
+        out: Any = tempfile.TemporaryFile("w+b") if binary else tempfile.TemporaryFile("w+", encoding="utf-8", newline="")
+    else:
+        out = io.BytesIO() if binary else io.StringIO()
     kw: Dict[str, Any] = dict(sel)
     if binary:
         kw["codec"] = codec
@@ -233,8 +253,14 @@ def run_converter(pdf: bytes, output_type: str, la: Optional[Dict[str, Any]], se
     if output_type == "xml":
         kw["strip_control"] = strip
     del _SEEN[:]
-    extract_text_to_fp(io.BytesIO(pdf), out, output_type=output_type, laparams=make_laparams(la), **kw)
-    return out.getvalue(), list(_SEEN)
+    try:
+        extract_text_to_fp(io.BytesIO(pdf), out, output_type=output_type, laparams=make_laparams(la), **kw)
+        if filesink:
+            out.seek(0)
+            return out.read(), list(_SEEN)
+        return out.getvalue(), list(_SEEN)
+    finally:
+        out.close()
 
 
 def run_extract_text(pdf: bytes, la: Optional[Dict[str, Any]], sel: Dict[str, Any]) -> Tuple[str, List[Any]]:
@@ -258,7 +284,7 @@ def loose_sig(pages: List[Any], text_only: bool) -> List[Any]:
             it = st.pop()
             if text_only and isinstance(it, (LTCurve, LTImage)):
                 continue
-            if isinstance(it, LTFigure) and INLINE_NAME.match(it.name or "") and len(it) == 1 and isinstance(next(iter(it)), LTImage):
+            if isinstance(it, LTFigure) and INLINE_NAME.match(it.name or ""):
                 nm = "<inline>"      # older trees name an inline image after id() of a transient object: differs between runs
             else:
                 nm = getattr(it, "name", "") if isinstance(it, LTFigure) else ""
@@ -272,12 +298,17 @@ def loose_sig(pages: List[Any], text_only: bool) -> List[Any]:
 
 
 def strict_sig(pages: List[Any], text_only: bool) -> List[Any]:
-    from pdfminer.layout import LTContainer, LTCurve, LTImage, LTText, LTTextBox
+    from pdfminer.layout import LTChar, LTContainer, LTCurve, LTFigure, LTImage, LTText, LTTextBox
 
     def sig(it: Any) -> Any:
         kids = [sig(c) for c in it if not (text_only and isinstance(c, (LTCurve, LTImage)))] if isinstance(it, LTContainer) else []
+        nm = ""
+        if isinstance(it, LTFigure):
+            nm = "<inline>" if INLINE_NAME.match(it.name or "") else it.name
+        elif isinstance(it, LTChar):
+            nm = it.fontname if isinstance(it.fontname, str) else ""
         return (type(it).__name__, bbox_str(it.bbox) if hasattr(it, "bbox") else "", it.get_text() if isinstance(it, LTText) else "",
-                it.index if isinstance(it, LTTextBox) else -2, kids)
+                it.index if isinstance(it, LTTextBox) else -2, nm, kids)
 
     return [sig(p) for p in pages]
 
@@ -729,8 +760,10 @@ def check_case(case: Dict[str, Any], rec: Any = None, only: Optional[str] = None
         text_main: Optional[str] = None
         for la in la_list:
             lk = "none" if la is None else "main"
-            label = "text/StringIO/" + lk
-            r = call(label, run_converter, pdf, "text", la, sel, None)
+            fs = rng.random() < 0.15
+            label = "text/%s/%s" % ("textfile" if fs else "StringIO", lk)
+            count("file_sink_runs", int(fs))
+            r = call(label, run_converter, pdf, "text", la, sel, None, False, fs)
             evaluation("text/str/" + lk)
             count("text_runs")
             if la is None:
@@ -758,8 +791,10 @@ def check_case(case: Dict[str, Any], rec: Any = None, only: Optional[str] = None
             able = able_codecs(text_main)
             chosen = rng.sample(able, min(3, len(able)))
             for codec in chosen:
-                label = "text/BytesIO/" + codec
-                r = call(label, run_converter, pdf, "text", la_main, sel, codec)
+                fs = rng.random() < 0.15
+                label = "text/%s/%s" % ("binaryfile" if fs else "BytesIO", codec)
+                count("file_sink_runs", int(fs))
+                r = call(label, run_converter, pdf, "text", la_main, sel, codec, False, fs)
                 evaluation("text/bytes/" + codec)
                 count("text_runs")
                 count("binary_text_runs")
@@ -778,8 +813,10 @@ def check_case(case: Dict[str, Any], rec: Any = None, only: Optional[str] = None
         combos = [(la_main, strip1), (la_x, not strip1)]
         for la, strip in combos:
             lk = "none" if la is None else "main"
-            label = "xml/StringIO/%s/strip=%d" % (lk, strip)
-            r = call(label, run_converter, pdf, "xml", la, sel, None, strip)
+            fs = rng.random() < 0.15
+            label = "xml/%s/%s/strip=%d" % ("textfile" if fs else "StringIO", lk, strip)
+            count("file_sink_runs", int(fs))
+            r = call(label, run_converter, pdf, "xml", la, sel, None, strip, fs)
             evaluation("xml/str/%s/%d" % (lk, strip))
             count("xml_runs")
             if la is None:
@@ -794,8 +831,10 @@ def check_case(case: Dict[str, Any], rec: Any = None, only: Optional[str] = None
             # binary sinks with codecs able to encode this very document
             able = able_codecs(HEADER.sub("", r[0]))
             for codec in rng.sample(able, min(2, len(able))):
-                label = "xml/BytesIO/%s/%s/strip=%d" % (codec, lk, strip)
-                rb = call(label, run_converter, pdf, "xml", la, sel, codec, strip)
+                fs = rng.random() < 0.15
+                label = "xml/%s/%s/%s/strip=%d" % ("binaryfile" if fs else "BytesIO", codec, lk, strip)
+                count("file_sink_runs", int(fs))
+                rb = call(label, run_converter, pdf, "xml", la, sel, codec, strip, fs)
                 evaluation("xml/bytes/%s/%s/%d" % (codec, lk, strip))
                 count("xml_runs")
                 count("binary_xml_runs")
